@@ -57,8 +57,8 @@ impl Kinematics for OPWKinematics {
     /// The rotation of pose in this case is only approximate.
     fn inverse(&self, pose: &Pose) -> Solutions {
         if self.parameters.dof == 5 {
-            // For 5 DOF robot, we can only do 5 DOF approximate inverse.
-            self.inverse_intern_5_dof(pose, f64::NAN)
+            // For 5 DOF robot, we can only do 5 DOF approximate inverse (joint 6 is set to 0.0).
+            self.inverse_5dof(pose, 0.0)
         } else {
             self.filter_constraints_compliant(self.inverse_intern(&pose))
         }
@@ -69,7 +69,7 @@ impl Kinematics for OPWKinematics {
     // The rotation of pose in this case is only approximate.
     fn inverse_continuing(&self, pose: &Pose, prev: &Joints) -> Solutions {
         if self.parameters.dof == 5 {
-            return self.inverse_intern_5_dof(pose, prev[5]);
+            return self.inverse_continuing_5dof(pose, prev);
         }
 
         let previous;
